@@ -81,7 +81,7 @@ def _race_table(summ):
 def run(ctx):
     quick = ctx.tier == "quick"
     n = 24 if quick else 200
-    reps = 75 if quick else 2400
+    reps = 100 if quick else 2400
     ctx.trusted += [
         "harness/p/srv + harness/p/c14: server driver, script generator, the abstraction of an embedding to the class the validation layers and the engine distinguish (good / empty / non-finite / wrong dimension / zero), canonicalisation of answers to status classes, the census (BulkQuery over the id universe 1..9) and GET /usage parsing",
         "count measurement in the race part: the server's count is not exposed; it is measured as limit - (fresh ids admitted until RESOURCE_EXHAUSTED)",
